@@ -46,6 +46,8 @@ func main() {
 		logMode(*seed, *n)
 	case "env":
 		envMode(*seed, *n)
+	case "procchild":
+		procChild(flag.Args(), *n)
 	case "probe":
 		probeMode(*defsFile)
 	case "proc":
